@@ -69,6 +69,7 @@ Fixpoint decode (fuel : nat) (l : list nat) : option (list ev) :=
       | 11 :: h :: lo :: r => k (L (GCloseL (w16 h lo))) r
       | 12 :: r => k (L SLock) r
       | 13 :: h :: lo :: r => k (L (GDrain (w16 h lo))) r
+      | 14 :: h :: lo :: r => k (L (GSpawn (w16 h lo))) r
       | 16 :: h :: lo :: fh :: fl :: nh :: nl :: r => k (ODeliv (w16 h lo) (w16 fh fl) (w16 nh nl)) r
       | 17 :: h :: lo :: r => k (OMapLen (w16 h lo)) r
       | 18 :: h :: lo :: nh :: nl :: r => k (OChLen (w16 h lo) (w16 nh nl)) r
@@ -104,7 +105,7 @@ Fixpoint nodupb (l : list nat) : bool :=
     connect phase (only map inserts) followed by a phase without connects, disconnects or failing Sends. *)
 Definition is_connect (l : label) : bool := match l with GInsB _ | GInsE _ => true | _ => false end.
 Definition is_churn (l : label) : bool :=
-  match l with GInsB _ | GInsE _ | GSend _ false | GDelB _ | GDelE _ | GCloseL _ | GDrain _ => true | _ => false end.
+  match l with GInsB _ | GInsE _ | GSend _ false | GDelB _ | GDelE _ | GCloseL _ | GDrain _ | GSpawn _ | GDelBx _ => true | _ => false end.
 Fixpoint drop_connects (ls : list label) : list label :=
   match ls with l :: r => if is_connect l then drop_connects r else ls | [] => [] end.
 Definition in_domain (k : case) : bool :=
